@@ -27,7 +27,8 @@ RULE = ("channels H = U diag(s) V^H with prescribed singular values (kappa "
         "energy per channel use; the driver checks decode(H encode(x)) = x and "
         "the filter equations.  Signature = (scheme, Nr, Nt, sv-class, data "
         "kind, round); non-trivial = more than one antenna or channel use."
-        "The received block must be unchanged by decode. ")
+        "The received block must be unchanged by decode. "
+        "A sixth of the filter cases use an integer-dtype channel (int16/32/64). ")
 ASSUMPTIONS = ["round trips use noise variance 0/None (with noise the BLAST "
                "family switches to the biased MMSE filter by design)",
                "tolerance 256 eps n kappa(H) ||x||"]
@@ -222,7 +223,18 @@ def case_filters(ctx, rng, idx):
     kind = SVK[idx % len(SVK)]
     H, kap = num.controlled_matrix(rng, Nr, Nt, 1e4, bool(idx % 2), kind,
                                    10.0 ** rng.uniform(-1, 1))
-    tag = {"Nr": Nr, "Nt": Nt, "kappa": kap, "H": H}
+    if idx % 6 == 3:
+        # a channel held in an integer dtype (quantised taps, a 0/+-1 toy matrix)
+        for _ in range(20):
+            # (not int8: H^H H of such entries does not fit int8, and numpy computes
+            #  an integer Gram matrix in the caller's dtype -- the caller's precision)
+            Hi = rng.integers(-6, 7, size=(Nr, Nt)).astype(
+                [np.int64, np.int32, np.int16][int(rng.integers(0, 3))])
+            sv = np.linalg.svd(Hi.astype(float), compute_uv=False)
+            if sv[-1] > 1e-6 * sv[0] and sv[0] / sv[-1] < 1e3:
+                H, kap = Hi, float(sv[0] / sv[-1])
+                break
+    tag = {"Nr": Nr, "Nt": Nt, "kappa": kap, "H": H, "dtype": str(H.dtype)}
     okc, Z = ctx.call("zf-filter", M.MimoBase._calcZeroForceFilter, H, detail=tag)
     if okc:
         ctx.within("zf-filter", fro(np.asarray(Z) @ H - np.eye(Nt)), 256 * EPS * Nr * kap,
